@@ -1,2 +1,24 @@
-//! harnesses mounted into the crate (see DESIGN.md 3.1)
+//! Async policy fixture (C19). Child of `crate::policy::async`.
 #![allow(dead_code, unused_imports)]
+use super::*;
+use crate::policy::{PolicyPair, SampledLFU, TinyLFU};
+use crate::verif_env::{mrec, KVec, HS};
+use crate::verif_nd::{self as nd, harness, vassert, vcover};
+
+/// `AsyncLFUPolicy` wired as `with_hasher` wires it, without spawning the policy task
+pub(crate) fn mk_policy_async(admit: TinyLFU, costs: SampledLFU<HS>, metrics: Arc<Metrics>) -> (AsyncLFUPolicy<HS>, PolicyProcessor<HS>) {
+    let inner = crate::policy::verif_harness::inner_from(admit, costs, metrics.clone());
+    let (items_tx, items_rx) = unbounded();
+    let (stop_tx, stop_rx) = stop_channel();
+    let proc_ = PolicyProcessor::new(inner.clone(), items_rx, stop_rx);
+    (
+        AsyncLFUPolicy { inner, items_tx, stop_tx, is_closed: AtomicBool::new(false), metrics },
+        proc_,
+    )
+}
+
+/// wiring-mode stand-in for `AsyncLFUPolicy::add` (same recorder as the sync flavour)
+#[cfg(all(kani, feature = "sync"))]
+pub(crate) fn add_wiring_async<S: BuildHasher + Clone + 'static>(_p: &AsyncLFUPolicy<S>, key: u64, cost: i64) -> (Option<KVec<PolicyPair>>, bool) {
+    crate::policy::verif_harness::psync::add_wiring(key, cost)
+}
